@@ -1,5 +1,6 @@
 import Driver.C07SemX
 import Driver.C08
+import Qryn.Read.EngineClass
 /-! `c09rows`: the statement the REAL ClickHouse planner built (reflection dump → `Sel`), evaluated by the reference
     interpreter `Sql.evalSelX` (C07's semantics of the SQL subset, SELECT aliases visible) on a small database, with the
     oracles (RE2, label documents, number parsing, JSON path extraction, capture groups) given as finite tables the Go
@@ -75,7 +76,14 @@ def matrix (args : List String) : Option String := do
   some ("matrix " ++ (if plan.isEmpty then "-" else ";".intercalate (plan.map mrowOut)) ++ " rows " ++
     (if logRows.isEmpty then "-" else ";".intercalate (logRows.map rowOut)))
 
+/-- the theorem class of a case of the `engines-metric` stream (`Read.engineClass`) -/
+def klass (args : List String) : Option String := do
+  let (c, rest) ← Driver.C08.mctx? args
+  let (q, _) ← Driver.C08.query? rest
+  some (Qryn.Read.engineClass c q)
+
 def handle : List String → Option String
+  | "c09class" :: args => klass args
   | "c09rows" :: args => rows args
   | "c09matrix" :: args => matrix args
   | _ => none
